@@ -57,6 +57,7 @@ func runC06(c *Ctx) {
 	if on("pickwait") {
 		c06PickWait(c)
 	}
+	c06S3(c, on)
 }
 
 // ---- xor --------------------------------------------------------------------------------------
